@@ -592,9 +592,27 @@ def seed_valid(sd, sidx: int) -> bool:
     extended next hop capability (RFC 8950), so an IPv4 family with an IPv6 next hop is not valid there."""
     if sd['valid_kind'] not in ('ref', 'rec'):
         return False
+    if _v6_with_v4_nexthop(sd):
+        # an IPv6 family with a 4/12-byte next hop is only valid where 'ipv6 <safi> ipv4' was negotiated (RFC 8950
+        # generalised): RFC 4760/2545 ask for 16 or 32 bytes otherwise.  ExaBGP never announces such an entry
+        # (Capabilities._NEXTHOP lists IPv4 families only), so it is negotiated on no session.
+        return False
     if sidx == PLAIN_SESSION:
         return 0 in sd['valid_in'] and not _needs_extnh(sd)
     return sidx in sd['valid_in']
+
+
+def _v6_with_v4_nexthop(sd) -> bool:
+    if sd['type'] != w.UPDATE:
+        return False
+    lay = _update_layout(sd['body'])
+    if lay is None:
+        return False
+    for pos, hl, ln, flags, code in lay[3]:
+        v = sd['body'][pos + hl:pos + hl + ln]
+        if code == w.MP_REACH and len(v) >= 4 and v[:2] == b'\x00\x02' and v[3] in (4, 12):
+            return True
+    return False
 
 
 def _needs_extnh(sd) -> bool:
